@@ -207,6 +207,30 @@ def run_recycle(ck, stats):
                                  case, tag="recycle")
 
 
+def run_live_handler(ck, stats):
+    """F49: storage reachable ONLY through the exception handler installed on a live frame (a box / vector captured
+    by the handler closure), across full collections and enough allocations to reuse every freed slot."""
+    pre = ("(define c04-keep '())\n(define (c04-hchurn n) (if (= n 0) 0 (begin (set! c04-keep (box (list 'garbage n))) "
+           "(set! c04-keep (vector n n)) (c04-hchurn (- n 1)))))\n"
+           "(define (c04-mkh) (let ([b (box 'mine)] [v (vector 'mine-too)]) (lambda (e) (list 'handled (unbox b) (vector-ref v 0)))))")
+    progs = [
+        "(call-with-exception-handler (c04-mkh) (lambda () (begin (#%gc-collect) (c04-hchurn 150000) (error \"y\"))))",
+        "(with-handler (c04-mkh) (begin (#%gc-collect) (c04-hchurn 150000) (error \"x\")))",
+        "(call-with-exception-handler (c04-mkh) (lambda () (call-with-exception-handler (lambda (e) (error \"again\")) "
+        "(lambda () (begin (#%gc-collect) (c04-hchurn 150000) (error \"z\"))))))",
+    ]
+    want = "('\"handled\" '\"mine\" '\"mine-too\")"
+    for jit in (True, False):
+        res = ck.eval_cases([[pre, p] for p in progs], env=({} if jit else {"STEEL_JIT": "false"}), fresh=True, batch=1, timeout_per_batch=240)
+        for p, r in zip(progs, res):
+            ck.cov["evaluations"] += 1
+            stats["live_handler_runs"] = stats.get("live_handler_runs", 0) + 1
+            got = r[1]["ok"][-1] if len(r) > 1 and "ok" in r[1] else json.dumps(r[-1:])[:200]
+            if got != want:
+                ck.failing_input("storage reachable only through the handler of a live frame: the handler read %s, stored %s" % (got, want),
+                                 {"units": [pre, p], "jit": jit, "kind": "live-handler", "got": got, "want": want}, tag="handler")
+
+
 def run(ck):
     ck.cov["trusted_base"] = [
         "Coq 8.16.1 kernel, coqc; vm_compute for model evaluation",
@@ -249,6 +273,7 @@ def run(ck):
         scripts = scripts + [H.gen_script(ck.rng, nsteps) for _ in range(nscripts)]
         check_batch(ck, scripts, env, "chunk=%(chunk)d every=%(every)d jit=%(jit)s" % env, stats)
     run_recycle(ck, stats)
+    run_live_handler(ck, stats)
     # wide containers: more pending children than the marker's local queue holds (generated capacity)
     queue_ok = all(facts[k] for k in ("pq_spill_enqueues", "pq_local_enqueues", "pq_drain_both", "pq_roots_enqueued"))
     picks = [("mvec", 0, facts["pq_local_capacity"] + 904, {})] + H.wide_picks(ck.rng, ck.tier, force_all=not queue_ok)
